@@ -126,7 +126,7 @@ enum OpKind {
     OP_STRAY, OP_TICK, OP_STALL, OP_ATTR, OP_PARTITION, OP_CTOR,
     // API walk ops
     OP_A_ADV = 40, OP_A_TICK, OP_A_MAP, OP_A_SESS, OP_A_ENUM, OP_A_TADD, OP_A_TFIND, OP_A_TREM, OP_A_TCLR, OP_A_TCOMPL,
-    OP_A_HEARD, OP_A_DISCBOOK, OP_A_CHARGE, OP_A_INACT, OP_A_SETR, OP_A_BANDSET, OP_A_SETMAP, OP_A_SETSESS, OP_A_BLOCKEND,
+    OP_A_HEARD, OP_A_DISCBOOK, OP_A_CHARGE, OP_A_INACT, OP_A_SETR, OP_A_BANDSET, OP_A_SETMAP, OP_A_SETSESS, OP_A_BLOCKEND, OP_A_REINIT,
     OP_KIND_MAX
 };
 const char *op_name(int k);
@@ -144,6 +144,7 @@ enum FaultKind {
     F_ALLOCFAIL,  // a: k-th allocation during handling fails (1-based), b: how many consecutive (default 1)
     F_SENDFAIL,   // a: bit mask over send indices during handling (bit i = i-th send refused)
     F_GETFAIL,    // a: getter mask failing during handling
+    F_TAILMAC,    // a: k (1..6): the last k bytes of the frame become the first k bytes of the receiving node's address (own address straddling the end of the frame); b: node
     F_KIND_MAX
 };
 const char *fault_name(int k);
